@@ -69,6 +69,8 @@ def same_value(a, b):
 
 
 def task(item):
+    if item[0] == 'history':
+        return rtbase.history_task(lambda it: task(('uni',) + tuple(it)), item, TIER[0])
     which, pos, i = item
     u = prim_universe() if which == 'prim' else rtbase.universe(TIER[0])
     VE = u.bv.ValidationError
@@ -147,6 +149,9 @@ def run(tier, seed):
     t = pu.ir_type('field', 3)
     r.sample({'shape': pu.shapes[3], 'probes': [(l, repr(o)[:60], rt.ref_valid(pu.pkg, pu.api, t, o)) for l, o in rt.probes_for(pu.pkg, pu.api, t)[:12]]})
     r.run_tasks(task, items, budget=120)
+    hist = rtbase.history_items(tier)
+    r.bounds['history_pairs'] = len(hist)
+    r.run_tasks(task, hist, budget=240, order_base=len(items), fresh=True)
     r.assumptions = ['bool offered to integer/float types is unspecified (the runtime accepts it on purpose)',
                      'for user types only the class relation is judged on assignment (subclasses for structs, parent unions for unions)']
     r.finish('every parameterised primitive / list type and every universe shape x probes at bound-1, bound, bound+1, every length/item-count '
@@ -157,6 +162,8 @@ def replay(rep):
     TIER[0] = 'thorough'
     for which, u in (('prim', prim_universe()), ('uni', rtbase.universe('thorough'))):
         if rep['inputs']['shape'] in u.shapes:
+            if which == 'uni' and rep['inputs'].get('history') in u.shapes:
+                task(('uni', 'alias', u.shapes.index(rep['inputs']['history'])))
             out = task((which, rep['inputs']['position'], u.shapes.index(rep['inputs']['shape'])))
             if out['viol']:
                 print('VIOLATION property=%s replay=replayed' % PROP)
